@@ -91,6 +91,15 @@ def build(reg, only=None):
             for k, u in units.get(src, {}).items():
                 if k in names:
                     units['C09'].setdefault(k, u)
+    # C05: "an added unmatched delimiter is rejected" rests on every construct accepting only its own closing token
+    # (stop-token conditions: units of C02 and C10)
+    if 'C05' in units:
+        for src, names in (('C02', ['LatexDelimitedGroupParserInfo.stop_token_condition',
+                                    'LatexEnvironmentBodyContentsParserInfo.stop_token_condition']),
+                           ('C10', ['LatexMathParserInfo.stop_token_condition'])):
+            for k, u in units.get(src, {}).items():
+                if k in names:
+                    units['C05'].setdefault(k, u)
     # C13's ASCII / 'fail' statements are lemmas over C04's step contract and policy/protection contracts
     if 'C13' in units and 'C04' in units:
         for k, u in units['C04'].items():
